@@ -95,6 +95,9 @@ func runC12(c *report.Ctx) {
 	checkEventBuffer(c, false)
 	c.Clause("3 handlers")
 	checkRuntimeHandlers(c)
+	c.Clause("3b the reservation a runtime answers to is released only by its own success; restore releases only a parked runtime")
+	checkInvokeRefusalPath(c)
+	checkHandleRestore(c)
 	c.Clause("4 routes")
 	checkRuntimeRoutes(c)
 }
